@@ -3,7 +3,7 @@ CONSTANTS
   Names = {"n1"}
   SizeSel = "tiny"
   Limit = 0
-  Single = FALSE
+  FName = "_dir.vpk"
   ArchIdx <- IdxAll
   NArch = 2
   Cs <- CsAll
